@@ -293,6 +293,25 @@ var SchemaFamilies = []Family{
 		b.WriteString("union U = " + strings.Join(ms, " | ") + "\ntype Query { u: U }\n")
 		return b.String()
 	}},
+	// directives applied to the argument definitions of directives: a chain in which every
+	// directive uses the next one on two of its arguments, and a cycle among the later ones
+	{"directive-arg-fanout", true, func(n int) string {
+		var b strings.Builder
+		for i := 0; i < n; i++ {
+			b.WriteString("directive @d" + itoa2(i) + "(a: Int @d" + itoa2(i+1) + ", b: Int @d" + itoa2(i+1) + ") on ARGUMENT_DEFINITION\n")
+		}
+		b.WriteString("directive @d" + itoa2(n) + " on ARGUMENT_DEFINITION\ntype Query { id: ID }\n")
+		return b.String()
+	}},
+	{"directive-arg-cycle", true, func(n int) string {
+		var b strings.Builder
+		b.WriteString("directive @a0(x: Int @c0) on ARGUMENT_DEFINITION\n")
+		for i := 0; i < n; i++ {
+			b.WriteString("directive @c" + itoa2(i) + "(y: Int @c" + itoa2((i+1)%n) + ") on ARGUMENT_DEFINITION\n")
+		}
+		b.WriteString("type Query { id: ID }\n")
+		return b.String()
+	}},
 	{"extension-flood", true, func(n int) string {
 		var b strings.Builder
 		b.WriteString("type Query { id: ID }\ndirective @t(a: Int) repeatable on OBJECT\n")
